@@ -20,6 +20,10 @@ CHECKS = {
    technique="differential property-based testing: interpreter (source and saved .ao) versus gcc-linked C executable over generated programs x levels",
    text="Generated programs, including ones ending by uncaught exception, failed assertion, never or error, run at -Q{0,1,2,3,5,9} under -Ginterp (from .as and from the saved .ao) and as executable; normalised stdout, exit class and the Unhandled Exception text must agree.",
    note="Only tool-emitted text is normalised away.", design="4 C03"),
+ "C07": dict(level="exploration", engine="hypothesis-subprocess",
+   technique="mutation-based fuzzing driven by Hypothesis recipes (token/bracket/pile/escape/directive mutations of corpus and generated sources, random bytes) with a validity-predicate oracle",
+   text="Every generated input is compiled with -Fap -Fao; the compiler must exit without signal or internal fault, within the CPU limit, and exit non-zero exactly when it printed an error. Fault sites already known are listed as known findings by call site.",
+   note="Faults are recognised by the signal handler's marker (hook 2) or death by signal, never by text that an echoed source line could forge.", design="4 C07"),
  "C10": dict(level="exploration", engine="rapidcheck-stateful",
    technique="stateful model-based property testing (rapidcheck histories, fork-isolated, reference model of live blocks) + exhaustive enumeration of short histories",
    text="Random alloc/free/resize/recode/link/root/gc histories (<=200 steps quick, up to 1e5 thorough) and all histories of length <=5 (thorough <=6) over a 10-letter alphabet run on the real allocator in both build flavours; after every step alignment, size, disjointness, byte patterns, code, survival of reachable blocks and stoAudit are checked.",
@@ -74,7 +78,7 @@ def main():
             {"name": "libfuzzer+product", "path": "harness/bigint_fuzz.cc", "serves_properties": ["C11"], "kind_free_text": "libFuzzer target with GMP oracle; deterministic boundary product driver"},
             {"name": "rapidcheck-stateful", "path": "harness/containers_rc.cc", "serves_properties": ["C10", "C20"], "kind_free_text": "rapidcheck-generated operation histories against reference models"},
             {"name": "exhaustive-loop+hypothesis", "path": "harness/xfloat_check.cc", "serves_properties": ["C19"], "kind_free_text": "exhaustive bit-pattern loops; Hypothesis-generated literals through the compiler"},
-            {"name": "hypothesis-subprocess", "path": "vt/", "serves_properties": ["C01", "C02", "C03"], "kind_free_text": "Hypothesis-generated programs/inputs driving the compiler under test as a subprocess"},
+            {"name": "hypothesis-subprocess", "path": "vt/", "serves_properties": ["C01", "C02", "C03", "C07"], "kind_free_text": "Hypothesis-generated programs/inputs driving the compiler under test as a subprocess"},
         ],
         "checks": checks,
         "not_applicable": na,
